@@ -445,6 +445,43 @@ Verdict(o) == IF After(o) = "Crashed" THEN "crash"
               ELSE IF ~Bounded(o) THEN "leak"
               ELSE "ok"
 
+\* ---- what an accepted storing request leaves behind is USED --------------------------------
+\* A request that stores something (a configuration document, an object, attributes) and is
+\* answered 2xx has been accepted: what it stored is input of every later request that reads
+\* it.  The health of the server after an accepted storing request is therefore observed
+\* AFTER this fixed program of ordinary requests on the bucket (and the key) the request
+\* named; a crash or wedge during the program is the crash / wedge of the storing request.
+\* target: "new" a key of the program's own, "new2" a second one, "bucket", "key" the key of
+\* the storing request (object-level endpoints only)
+Stores(ep) == ep.m \in {"PUT", "POST", "DELETE", "PATCH"} /\ ep.p # <<>> /\ ep.p[1].k = "bucket"
+FU(name, m, target, q, h, body) == [name |-> name, m |-> m, target |-> target, q |-> q, h |-> h, body |-> body]
+FollowUps == <<
+  FU("put",            "PUT",    "new",    "",               <<>>, "follow-up data"),
+  FU("get",            "GET",    "new",    "",               <<>>, ""),
+  FU("head",           "HEAD",   "new",    "",               <<>>, ""),
+  FU("copy",           "PUT",    "new2",   "",               << <<"x-amz-copy-source", "$FUBUCKET/$FUNEW">> >>, ""),
+  FU("put-tagging",    "PUT",    "new",    "tagging=",       <<>>, "<Tagging><TagSet><Tag><Key>fu</Key><Value>fu</Value></Tag></TagSet></Tagging>"),
+  FU("list-v2",        "GET",    "bucket", "list-type=2",    <<>>, ""),
+  FU("list-versions",  "GET",    "bucket", "versions=",      <<>>, ""),
+  FU("list-uploads",   "GET",    "bucket", "uploads=",       <<>>, ""),
+  FU("delete-objects", "POST",   "bucket", "delete=",        <<>>, "<Delete><Object><Key>$FUNEW2</Key></Object></Delete>"),
+  FU("delete",         "DELETE", "new",    "",               <<>>, ""),
+  FU("head-bucket",    "HEAD",   "bucket", "",               <<>>, ""),
+  FU("get-acl",        "GET",    "bucket", "acl=",           <<>>, ""),
+  FU("get-policy",     "GET",    "bucket", "policy=",        <<>>, ""),
+  FU("get-versioning", "GET",    "bucket", "versioning=",    <<>>, ""),
+  FU("get-lock",       "GET",    "bucket", "object-lock=",   <<>>, ""),
+  FU("get-tagging",    "GET",    "bucket", "tagging=",       <<>>, ""),
+  FU("get-ownership",  "GET",    "bucket", "ownershipControls=", <<>>, ""),
+  FU("get-cors",       "GET",    "bucket", "cors=",          <<>>, ""),
+  FU("key-get",        "GET",    "key",    "",               <<>>, ""),
+  FU("key-head",       "HEAD",   "key",    "",               <<>>, ""),
+  FU("key-tagging",    "GET",    "key",    "tagging=",       <<>>, ""),
+  FU("key-acl",        "GET",    "key",    "acl=",           <<>>, ""),
+  FU("key-retention",  "GET",    "key",    "retention=",     <<>>, ""),
+  FU("key-legal-hold", "GET",    "key",    "legal-hold=",    <<>>, ""),
+  FU("key-attributes", "GET",    "key",    "attributes=",    << <<"x-amz-object-attributes", "ETag,ObjectSize,StorageClass,Checksum,ObjectParts">> >>, "") >>
+
 \* ---- lemmas about the grammar itself (checked by TLC in ApiGrammarVec)
 Placeholders == {"$BUCKET", "$KEY", "$VERSION", "$UPLOAD", "$MPKEY", "$ETAG1", "$ETAGKEY", "$PUTKEY", "$COPYKEY",
                  "$DELKEY", "$DELVERSION", "$LOCKBUCKET", "$PUTBUCKET", "$LOCKKEY", "$LOCKVERSION", "$NEWBUCKET", "$EMPTYBUCKET",
